@@ -831,4 +831,105 @@ def r18_13(ctx):
     return out
 
 
-RULES = [r18_1, r18_2, r18_3, r18_4, r18_5, r18_6, r18_7, r18_8, r18_9, r18_10, r18_11, r18_12, r18_13]
+class _PolyCv(StandIn):
+    """an exact polynomial curve in the monomial basis, with the interface the projection uses: degree, derivate(),
+    evaluation at an iterable of nodes"""
+
+    def __init__(self, coefs):
+        self.coefs = [tuple(c) for c in coefs]
+
+    @classmethod
+    def bezier(cls, pts):
+        from math import comb
+        d = len(pts) - 1
+        coefs = []
+        for j in range(d + 1):           # coefficient of t^j
+            cx = cy = Fr(0)
+            for i in range(j + 1):
+                w = comb(d, j) * comb(j, i) * (-1) ** (i + j)
+                cx += w * pts[i][0]
+                cy += w * pts[i][1]
+            coefs.append((cx, cy))
+        return cls(coefs)
+
+    @property
+    def degree(self):
+        return max(len(self.coefs) - 1, 0)
+
+    @property
+    def npts(self):
+        return self.degree + 1
+
+    def derivate(self, times=1):
+        c = self.coefs
+        for _ in range(times):
+            c = [(k * x, k * y) for k, (x, y) in enumerate(c)][1:] or [(Fr(0), Fr(0))]
+        return _PolyCv(c)
+
+    def at(self, t):
+        x = y = 0
+        for cx, cy in reversed(self.coefs):
+            x, y = x * t + cx, y * t + cy
+        return (x, y)
+
+    def eval(self, nodes):
+        try:
+            return tuple(_MP(*self.at(t)) for t in nodes)
+        except TypeError:
+            return _MP(*self.at(nodes))
+
+    __call__ = eval
+
+
+def r18_14(ctx):
+    """abstract run (W) of Projection.point_on_curve through newton_iteration and closed_linspace on exact polynomial
+    stand-ins (a strongly bent quadratic quarter turn, an uneven cubic, a straight segment): for a point C(t*) of the
+    curve away from the start samples, one of the returned parameters is t* up to 1e-7 -- the necessary condition for
+    `point in segment`, hence for every boundary answer on a curved edge"""
+    out = Outcome("R18.14", "Projection.point_on_curve finds the parameter of a point lying on a curved segment (quadratic "
+                            "quarter turn, uneven cubic; exact and float coordinates), so that points of a curved edge are "
+                            "recognised as boundary points", floor=6)
+    fn = ctx.fn("curve.Projection.point_on_curve")
+    enter = {"curve.Projection.newton_iteration", "curve.Math.closed_linspace"}
+
+    def hook(rn, ev, call, name, recv, args, kwargs):
+        if name == "isinstance" and len(args) == 2 and isinstance(args[0], StandIn):
+            return True
+        if name == "Point2D":
+            if len(args) == 1 and isinstance(args[0], _MP):
+                return args[0]
+            return _MP(*(args[0] if len(args) == 1 else args))
+        return NotImplemented
+    ext = {"np.linspace": lambda a, b, n: [a + (b - a) * Fr(k, n - 1) for k in range(n)]}
+    quarter = [(Fr(1), Fr(0)), (Fr(1), Fr(1)), (Fr(0), Fr(1))]
+    cubic = [(Fr(0), Fr(0)), (Fr(3), Fr(0)), (Fr(3), Fr(1)), (Fr(0), Fr(2))]
+    line = [(Fr(-1), Fr(2)), (Fr(5), Fr(-1))]
+    cases = [("quadratic quarter turn (1,0),(1,1),(0,1)", quarter, Fr(3, 16), False),
+             ("quadratic quarter turn (1,0),(1,1),(0,1)", quarter, Fr(9, 16), False),
+             ("quadratic quarter turn (1,0),(1,1),(0,1)", quarter, Fr(13, 16), True),
+             ("quadratic quarter turn (1,0),(1,1),(0,1)", quarter, Fr(1, 16), True),
+             ("cubic (0,0),(3,0),(3,1),(0,2)", cubic, Fr(1, 8), False),
+             ("cubic (0,0),(3,0),(3,1),(0,2)", cubic, Fr(7, 10), True),
+             ("straight segment (-1,2),(5,-1)", line, Fr(2, 7), False)]
+    for label, pts, t, as_float in cases:
+        if as_float:
+            pts = [(float(x), float(y)) for x, y in pts]
+        cv = _PolyCv.bezier(pts)
+        P = _MP(*cv.at(float(t) if as_float else t))
+        try:
+            got = Runner(ctx, enter, hook, asserts=True, ext=ext).call_fn(fn, [P, cv])
+            got = [float(g) for g in got]
+        except (Undecided, Raised, TypeError, IndexError, ZeroDivisionError, OverflowError) as ex:
+            out.undecided(fn.qname, f"{label} at t={t}: {ex}", where=fn.where())
+            continue
+        kind = "float" if as_float else "exact"
+        if got and min(abs(g - float(t)) for g in got) <= 1e-7:
+            out.ok(fn.qname, f"{label}, {kind}: the point C({t}) projects onto t={t}", where=fn.where())
+        else:
+            out.bad(fn.qname, "the projection of a point of the curve does not find its parameter", where=fn.where(),
+                    detail=f"{label}, {kind} coordinates: the point C({t}) projects onto {[round(g, 9) for g in got]} -- a "
+                           f"point on a curved edge is then not a boundary point")
+    return out
+
+
+RULES = [r18_1, r18_2, r18_3, r18_4, r18_5, r18_6, r18_7, r18_8, r18_9, r18_10, r18_11, r18_12, r18_13, r18_14]
